@@ -94,6 +94,7 @@ pub fn summarise(b: Backend, variant: &str, case: &WorldCase, o: &Outcome) -> Va
                 "bytes": v.component_bytes,
                 "fp": format!("{fp:016x}"),
                 "inconsistent": v.oracle_inconsistent,
+                "overruled": v.reference_overruled,
                 "viol": v.violations.iter().map(|x| json!({
                     "key": format!("{}:{}:{}", b.name(), x.kind, x.pattern),
                     "what": x.what,
